@@ -33,11 +33,11 @@ GEN_SPEC = {"items": [
     {"kind": "calls", "file": _P, "func": "subConn.load", "as": "load_calls"},
 ]}
 QUICK_N = 300
-THOROUGH_N = 5000
+THOROUGH_N = 4000
 SHARD = 30
 DRIVER_TIMEOUT = 900
 RULE = ("histories of 8-60 pick/done/advance steps over n in {0,1,2,3,4,5,8} ready connections on the virtual clock "
-        "(advances from 0 ns to 8000 s: same-instant, ns, ms, around the 1 s force-pick bound, around the 6.93 s "
+        "(clock starting at 1 h, or at 1 ns..10 s in a quarter of the random cases; advances from 0 ns to 8000 s: same-instant, ns, ms, around the 1 s force-pick bound, around the 6.93 s "
         "half-life, the 60 s log interval, w denormal/0), scripted Intn draws, grpc codes -1/-2/0..16 with "
         "per-connection failure profiles, a few double-called done funcs; directed families: score exactly at the "
         "500 threshold with >= 3 conns, 2-conn force-pick boundary (1 s +- 1 ns), 500+ consecutive failing "
@@ -122,7 +122,8 @@ def _random_case(rng):
             ops.append({"op": "done", "k": k, "code": codes[0], "codes": codes})
         else:
             ops.append({"op": "adv", "dt": _dt(rng)})
-    return {"n": n, "start": START, "ops": ops}
+    start = START if rng.random() < 0.75 else rng.choice([1, 5 * MS, S, 3 * S, 10 * S])
+    return {"n": n, "start": start, "ops": ops}
 
 
 def _threshold_case(rng):
